@@ -222,6 +222,14 @@ func (r *rw) post(c *astutil.Cursor) bool {
 			c.Replace(r.call("vsched", "Recv", n.X))
 		}
 	case *ast.CallExpr:
+		// a call of a method of an object other goroutines share and that is atomic for the
+		// scheduler (x/time/rate's limiter keeps its native mutex): the caller may be preempted
+		// between two such calls, so each call is preceded by a scheduling point
+		if sel, ok := n.Fun.(*ast.SelectorExpr); ok {
+			if tv, ok := r.info.Types[sel.X]; ok && tv.Type != nil && tv.Type.String() == "*golang.org/x/time/rate.Limiter" && !r.keep["sync"] {
+				sel.X = r.call("vsched", "Pt", sel.X)
+			}
+		}
 		if id, ok := n.Fun.(*ast.Ident); ok && id.Name == "close" && len(n.Args) == 1 {
 			if obj := r.info.Uses[id]; obj == nil || obj.Pkg() == nil { // the builtin
 				c.Replace(r.call("vsched", "Close", n.Args[0]))
